@@ -145,8 +145,17 @@ structure C10St where
   lastResp : Option (Nat × Nat × List Hdr) := none
   decided100 : Bool := false
   hackFired : Bool := false
+  /-- a Connection value that spells the close option in a way the property's quantification does not list
+      (another letter case, a member of a comma-separated list, padded): whether that "carried Connection:
+      close" is not for this oracle to decide — either verdict is accepted on that ground alone -/
+  ambig : Bool := false
   prevState : String := "gone"
   fail : Option String := none
+
+/-- a Connection value that names `close` without being exactly `close` -/
+def closeVariant (v : Bytes) : Bool :=
+  let txt := (String.ofList (v.map fun b => Char.ofNat b.toNat)).toLower
+  v != strB "close" && (txt.splitOn ",").any (fun e => e.trimAscii.toString == "close")
 
 /-- does `hay` contain `needle`? -/
 def strHas (hay needle : String) : Bool := (hay.splitOn needle).length > 1
@@ -172,6 +181,7 @@ def oracleC10 (c : TCase) : Verdict :=
       (match t.op with
        | _ :: m :: v :: _ :: _ :: rest =>
          { s1 with http10 := v == "HTTP/1.0", clientClose := (pairsOf rest).any (fun h => h.name == "connection" && h.value == strB "close"),
+                   ambig := (pairsOf rest).any (fun h => h.name == "connection" && closeVariant h.value),
                    serverClose := false, not100 := false, closeDelim := false, method := m, lastResp := none, decided100 := false, hackFired := false }
        | _ => s1)
     | "follow" =>
@@ -199,7 +209,8 @@ def oracleC10 (c : TCase) : Verdict :=
            | some m => (match rfcFraming (v.toNat! == 0) m st'.toNat! (framingOf wireFields) with | .ok .close => true | _ => false)
            | none => false
          { s1 with lastResp := some (st'.toNat!, v.toNat!, hdrs), hackFired := s.hackFired || hack, closeDelim := s.closeDelim || closeD,
-                   serverClose := s.serverClose || hdrs.any (fun h => h.name == "connection" && h.value == strB "close") }
+                   serverClose := s.serverClose || hdrs.any (fun h => h.name == "connection" && h.value == strB "close"),
+                   ambig := s.ambig || hdrs.any (fun h => h.name == "connection" && closeVariant h.value) }
        | _ => s1)
     | "proceed" | "proceed!" =>
       (match t.res with
@@ -216,7 +227,7 @@ def oracleC10 (c : TCase) : Verdict :=
       -- connection must close whatever Connection header the fragment carried
       let must := s.http10 || s.clientClose || s.serverClose || s.not100 || s.closeDelim || s.hackFired
       (match t.res with
-       | ["bool", b] => if (b == "true") == must then s1
+       | ["bool", b] => if (b == "true") == must || (b == "true" && s.ambig) then s1
                         else { s with fail := some s!"must-close={b} but conditions: http10={s.http10} clientClose={s.clientClose} serverClose={s.serverClose} not100={s.not100} closeDelimited={s.closeDelim} boundariesLost={s.hackFired}" }
        | _ => s1)
     | "reason" =>
@@ -225,6 +236,7 @@ def oracleC10 (c : TCase) : Verdict :=
        | "str" :: ws =>
          let txt := " ".intercalate ws
          if txt == "-" then (if must then { s with fail := some "must close but no reason is given" } else s1)
+         else if !must && s.ambig then s1
          else if !must then { s with fail := some s!"a reason is given ({txt}) although no close condition holds" }
          else (match reasonFact s txt with
                | some true => s1
